@@ -13,6 +13,9 @@ using namespace vfh;
 static int cnt[32], data[32], who[32]; static int nunits = 0;
 static void unit(int i) { if (++cnt[i] != 1) vf_fail("unit %d executed %d times", i, cnt[i]); vf_plain_write(&data[i]); data[i] = 100 + i; who[i] = vf_self(); if (i >= nunits) nunits = i + 1; }
 static void covered(int n, const char* where, int from = 0) { for (int i = from; i < n; i++) { if (cnt[i] != 1) vf_fail("%s returned but unit %d ran %d times", where, i, cnt[i]); vf_plain_read(&data[i]); if (data[i] != 100 + i) vf_fail("%s: write of unit %d not visible", where, i); } }
+// functor whose k-th copy throws (fault at the copy of the functor into its task inside task_group::run / defer)
+static int g_fcopies = 0, g_fthrowat = 0; struct CopyThrew {};
+struct Fun { int i; explicit Fun(int x) : i(x) {} Fun(const Fun& o) : i(o.i) { if (g_fthrowat && ++g_fcopies == g_fthrowat) throw CopyThrew(); } void operator()() const { unit(i); } };
 static void scenario() {
     const char* k = vf_param("kind", "tg"); int P = (int)vf_param_int("P", 2);
     tbb::global_control gc(tbb::global_control::max_allowed_parallelism, P);
@@ -48,6 +51,14 @@ static void scenario() {
     else if (streq(k, "oversub")) { // three threads want into an arena of two slots
         auto ids = gated(2, [&](int) { (void)tbb::this_task_arena::max_concurrency(); }, [&](int i) { ar.execute([&, i] { tbb::task_group tg; tg.run([&, i] { unit(2 * i); }); tg.run([&, i] { unit(2 * i + 1); }); tg.wait(); if (cnt[2 * i] != 1 || cnt[2 * i + 1] != 1) vf_fail("wait of thread %d returned early", i); }); });
         vf_window(1); vf_gate_open(); ar.execute([&] { tbb::task_group tg; tg.run([&] { unit(4); }); tg.wait(); }); join_all(ids); vf_window(0); covered(5, "all waits"); }
+    else if (streq(k, "copythrow")) { // the throwat-th functor copy throws: that run()/defer() call fails, the group stays usable and its waits still cover every accepted unit
+        g_fthrowat = (int)vf_param_int("throwat", 1); g_fcopies = 0; int defer = (int)vf_param_int("defer", 0);
+        vf_window(1); ar.execute([&] { tbb::task_group tg; bool acc[4] = {false, false, false, false}; int threw = 0;
+            for (int i = 0; i < 3; i++) { Fun f(i); try { if (defer && i == 1) { tbb::task_handle h = tg.defer(f); tg.run(std::move(h)); } else tg.run(f); acc[i] = true; } catch (CopyThrew&) { threw++; } }
+            tg.wait();
+            for (int i = 0; i < 3; i++) { if (acc[i] && cnt[i] != 1) vf_fail("task_group::wait returned but accepted unit %d ran %d times (a run() whose functor copy threw came before)", i, cnt[i]); if (!acc[i] && cnt[i]) vf_fail("unit %d of a failed run() was executed", i); }
+            { Fun f(3); g_fthrowat = 0; tg.run(f); tg.wait(); if (cnt[3] != 1) vf_fail("second wait returned but unit 3 ran %d times", cnt[3]); }
+            if (threw != 1) vf_fail("%d run() calls threw, expected 1", threw); }); vf_window(0); }
     else vf_fail("unknown kind");
     vf_liveness(0);
     vf_outcome("by:"); for (int i = 0; i < nunits; i++) vf_outcome("%d", who[i]);
